@@ -4,12 +4,14 @@ import (
 	"context"
 	"crypto/tls"
 	"fmt"
+	"github.com/jdillenkofer/pithos/internal/settings"
 	"io"
 	"log/slog"
 	"net"
 	"net/http"
 	"net/http/httptest"
 	"net/netip"
+	"os"
 	"regexp"
 	"runtime"
 	"sort"
@@ -204,6 +206,47 @@ func c32NonTrivial(c c32Case) bool {
 	return false
 }
 
+// c32Configured: the entries a comma-separated setting value configures (blank entries are no entries).
+func c32Configured(list []string) []string {
+	if list == nil {
+		return nil
+	}
+	out := []string{}
+	for _, e := range strings.Split(strings.Join(list, ","), ",") {
+		if t := strings.TrimSpace(e); t != "" {
+			out = append(out, t)
+		}
+	}
+	return out
+}
+
+var c32EnvMu sync.Mutex
+
+// c32LoadSettings loads the configuration the way the server binary does, from command-line
+// flags or from the environment.
+func c32LoadSettings(via string, trust bool, list []string) (*settings.Settings, error) {
+	c32EnvMu.Lock()
+	defer c32EnvMu.Unlock()
+	for _, k := range []string{"PITHOS_TRUST_FORWARDED_HEADERS", "PITHOS_TRUSTED_PROXY_CIDRS"} {
+		os.Unsetenv(k)
+	}
+	var args []string
+	if via == "cli" {
+		args = append(args, fmt.Sprintf("--trustForwardedHeaders=%v", trust))
+		if list != nil {
+			args = append(args, "--trustedProxyCIDRs="+strings.Join(list, ","))
+		}
+	} else {
+		os.Setenv("PITHOS_TRUST_FORWARDED_HEADERS", fmt.Sprint(trust))
+		if list != nil {
+			os.Setenv("PITHOS_TRUSTED_PROXY_CIDRS", strings.Join(list, ","))
+		}
+		defer os.Unsetenv("PITHOS_TRUST_FORWARDED_HEADERS")
+		defer os.Unsetenv("PITHOS_TRUSTED_PROXY_CIDRS")
+	}
+	return settings.LoadSettings(args)
+}
+
 func c32Class(c c32Case) string {
 	switch {
 	case !c.Trust:
@@ -289,7 +332,11 @@ func TestC32(t *testing.T) {
 	}
 
 	var cases []c32Case
-	for _, level := range []string{"server", "direct"} {
+	levels := []string{"server", "direct", "server+cli"}
+	if !quick() {
+		levels = append(levels, "server+env")
+	}
+	for _, level := range levels {
 		spells := []string{"canonical"}
 		if level == "direct" {
 			spells = []string{"canonical", "lower", "upper"}
@@ -305,7 +352,11 @@ func TestC32(t *testing.T) {
 										if spell != "canonical" && xff == nil && cf == nil && xfp == nil {
 											continue
 										}
-										cases = append(cases, c32Case{Level: level, Trust: trust, CIDRs: cs.list, CIDRSet: cs.name, Peer: peer, HTTPS: https, XFF: xff, CF: cf, XFP: xfp, Spell: spell})
+										list := cs.list
+										if strings.Contains(level, "+") {
+											list = c32Configured(cs.list) // what the comma-separated setting configures
+										}
+										cases = append(cases, c32Case{Level: level, Trust: trust, CIDRs: list, CIDRSet: cs.name, Peer: peer, HTTPS: https, XFF: xff, CF: cf, XFP: xfp, Spell: spell})
 									}
 								}
 							}
@@ -320,24 +371,38 @@ func TestC32(t *testing.T) {
 	type cfgKey struct {
 		trust bool
 		set   string
+		via   string // "" = Options given directly; "cli" / "env" = through settings.LoadSettings as the server binary does
 	}
 	auths := map[cfgKey]*luaauth.LuaAuthorizer{}
 	recs := map[cfgKey]*c32Recorder{}
 	handlers := map[cfgKey]http.Handler{}
 	ctorErrors := 0
-	for _, trust := range []bool{false, true} {
-		for _, cs := range c32CIDRSets() {
-			a, err := luaauth.NewLuaAuthorizerWithOptions(c32Script, luaauth.Options{TrustForwardedHeaders: trust, TrustedProxyCIDRs: cs.list})
-			if err != nil {
-				// refusing an unusable configuration is a legitimate way to satisfy the property
-				ctorErrors++
-				run.Note("constructor rejected trust=%v cidrs=%s: %v", trust, cs.name, err)
-				continue
+	for _, via := range []string{"", "cli", "env"} {
+		for _, trust := range []bool{false, true} {
+			for _, cs := range c32CIDRSets() {
+				opts := luaauth.Options{TrustForwardedHeaders: trust, TrustedProxyCIDRs: cs.list}
+				if via != "" {
+					// the path of cmd/pithos.go: settings.LoadSettings, then TrustForwardedHeaders() / TrustedProxyCIDRs()
+					st, err := c32LoadSettings(via, trust, cs.list)
+					if err != nil {
+						ctorErrors++
+						run.Note("settings rejected via=%s trust=%v cidrs=%s: %v", via, trust, cs.name, err)
+						continue
+					}
+					opts = luaauth.Options{TrustForwardedHeaders: st.TrustForwardedHeaders(), TrustedProxyCIDRs: st.TrustedProxyCIDRs()}
+				}
+				a, err := luaauth.NewLuaAuthorizerWithOptions(c32Script, opts)
+				if err != nil {
+					// refusing an unusable configuration is a legitimate way to satisfy the property
+					ctorErrors++
+					run.Note("constructor rejected via=%q trust=%v cidrs=%s: %v", via, trust, cs.name, err)
+					continue
+				}
+				k := cfgKey{trust, cs.name, via}
+				auths[k] = a
+				recs[k] = &c32Recorder{inner: a, last: map[string]string{}}
+				handlers[k] = server.SetupServer(nil, "eu-central-1", "api.test", "web.test", recs[k], w.Storage)
 			}
-			k := cfgKey{trust, cs.name}
-			auths[k] = a
-			recs[k] = &c32Recorder{inner: a, last: map[string]string{}}
-			handlers[k] = server.SetupServer(nil, "eu-central-1", "api.test", "web.test", recs[k], w.Storage)
 		}
 	}
 
@@ -363,13 +428,16 @@ func TestC32(t *testing.T) {
 					return
 				}
 				c := cases[i]
-				k := cfgKey{c.Trust, c.CIDRSet}
+				k := cfgKey{c.Trust, c.CIDRSet, ""}
+				if _, via, ok := strings.Cut(c.Level, "+"); ok {
+					k.via = via
+				}
 				if auths[k] == nil {
 					completed[wi]++
 					continue
 				}
 				var obs c32Obs
-				if c.Level == "server" {
+				if strings.HasPrefix(c.Level, "server") {
 					marker := fmt.Sprintf("m%d", i)
 					hdr := [][2]string{{"X-Verif-Marker", marker}}
 					if c.XFF != nil {
@@ -496,7 +564,7 @@ func TestC32(t *testing.T) {
 	}
 	run.Cov["evaluations"] = evals
 	run.Cov["distinct_nontrivial"] = len(distinct)
-	run.Cov["rule"] = "full product level{server,direct} x trust{f,t} x CIDR lists (18 quick / 28 thorough: nil, empty, valid v4/v6, host bits, malformed, mixed) x peers (11 quick / 18 thorough) x peer scheme x X-Forwarded-For x CF-Connecting-IP x X-Forwarded-Proto (x 3 header spellings on the direct level); non-trivial = a forwarded header names a parsable IP/scheme different from the peer's"
+	run.Cov["rule"] = "full product level{server, direct, server configured through settings.LoadSettings from command-line flags (thorough: and from the environment)} x trust{f,t} x CIDR lists (18 quick / 28 thorough: nil, empty, valid v4/v6, host bits, malformed, mixed) x peers (11 quick / 18 thorough) x peer scheme x X-Forwarded-For x CF-Connecting-IP x X-Forwarded-Proto (x 3 header spellings on the direct level); non-trivial = a forwarded header names a parsable IP/scheme different from the peer's"
 	run.Cov["cases_total"] = len(cases)
 	run.Cov["configurations"] = len(auths)
 	run.Cov["constructor_rejections"] = ctorErrors
